@@ -546,6 +546,67 @@ func main() {
 		{"drpcmigrate/listener.go", "listener.Accept"}, {"drpcmigrate/listener.go", "listener.Close"},
 		{"drpcmigrate/prefixconn.go", "newPrefixConn"}, {"drpcmigrate/prefixconn.go", "prefixConn.Read"},
 		{"drpcmigrate/header.go", "HeaderConn.Write"},
+		// constructors, accessors and small helpers (second session: every library function a property depends on is tied)
+		{"drpcstream/stream.go", "New"},
+		{"drpcstream/stream.go", "Stream.Context"},
+		{"drpcstream/stream.go", "Stream.Finished"},
+		{"drpcstream/stream.go", "Stream.ID"},
+		{"drpcstream/stream.go", "Stream.IsFinished"},
+		{"drpcstream/stream.go", "Stream.IsTerminated"},
+		{"drpcstream/stream.go", "Stream.SetManualFlush"},
+		{"drpcstream/stream.go", "Stream.Terminated"},
+		{"drpcstream/stream.go", "streamCtx.Done"},
+		{"drpcstream/stream.go", "streamCtx.Err"},
+		{"drpcstream/stream.go", "streamCtx.Value"},
+		{"drpcstream/pktbuf.go", "packetBuffer.init"},
+		{"drpcmanager/manager.go", "New"},
+		{"drpcmanager/manager.go", "Manager.Closed"},
+		{"drpcmanager/manager.go", "isConnectionReset"},
+		{"drpcmanager/streambuf.go", "streamBuffer.init"},
+		{"drpcconn/conn.go", "Conn.Close"},
+		{"drpcconn/conn.go", "Conn.Closed"},
+		{"drpcconn/conn.go", "Conn.Unblocked"},
+		{"drpcconn/conn.go", "New"},
+		{"drpcconn/conn.go", "NewWithOptions"},
+		{"drpcserver/server.go", "New"},
+		{"drpcserver/server.go", "NewWithOptions"},
+		{"drpcserver/util.go", "isTemporary"},
+		{"drpcctx/tracker.go", "NewTracker"},
+		{"drpcctx/tracker.go", "Tracker.Cancel"},
+		{"drpcenc/marshal.go", "MarshalAppend"},
+		{"drpcwire/reader.go", "NewReader"},
+		{"drpcwire/reader.go", "Reader.ReadPacket"},
+		{"drpcerr/err.go", "shallowEqual"},
+		{"drpcerr/err.go", "codeErr.Error"},
+		{"drpcpool/pool.go", "New"},
+		{"drpcpool/pool.go", "Pool.Get"},
+		{"drpcpool/doc.go", "closed"},
+		{"drpcpool/entry.go", "entry.globalList"},
+		{"drpcpool/entry.go", "entry.localList"},
+		{"drpcpool/conn.go", "poolConn.Closed"},
+		{"drpcpool/conn.go", "streamWrapper.Context"},
+		{"drpcpool/conn.go", "streamWrapperContext.Done"},
+		{"drpcmigrate/dial.go", "DialWithHeader"},
+		{"drpcmigrate/dial.go", "HeaderDialer.Dial"},
+		{"drpcmigrate/dial.go", "HeaderDialer.DialContext"},
+		{"drpcmigrate/header.go", "NewHeaderConn"},
+		{"drpcmigrate/listener.go", "newListener"},
+		{"drpcmigrate/mux.go", "NewListenMux"},
+		{"drpchttp/context.go", "Context"},
+		{"drpchttp/encoding.go", "JSONMarshal"},
+		{"drpchttp/encoding.go", "JSONUnmarshal"},
+		{"drpchttp/encoding.go", "base64Read"},
+		{"drpchttp/encoding.go", "normalWrite"},
+		{"drpchttp/encoding.go", "protoMarshal"},
+		{"drpchttp/encoding.go", "protoUnmarshal"},
+		{"drpchttp/handler.go", "NewWithOptions"},
+		{"drpchttp/options.go", "WithProtocol"},
+		{"drpchttp/options.go", "defaultProtocols"},
+		{"drpchttp/protocol_grpc_web.go", "grpcWebProtocol.NewStream"},
+		{"drpchttp/protocol_grpc_web.go", "grpcWebStream.Close"},
+		{"drpchttp/protocol_grpc_web.go", "grpcWebStream.MsgRecv"},
+		{"drpchttp/protocol_twirp.go", "twirpProtocol.NewStream"},
+		{"drpcmux/mux.go", "New"},
 		{"drpcctx/tracker.go", "Tracker.Run"}, {"drpcctx/tracker.go", "Tracker.track"}, {"drpcctx/tracker.go", "Tracker.Wait"},
 		{"cmd/protoc-gen-go-drpc/main.go", "main"}, {"cmd/protoc-gen-go-drpc/main.go", "generateFile"},
 		{"cmd/protoc-gen-go-drpc/main.go", "drpc.EncodingName"}, {"cmd/protoc-gen-go-drpc/main.go", "drpc.RPCGoString"},
